@@ -286,6 +286,12 @@ LEMMAS["mul_mono"] = _lem(  # a <= b, m >= 0 ==> a*m <= b*m
     lambda a, b, m: not (m >= 0 and a <= b) or a * m <= b * m,
     [_G, _G, _G],
 )
+LEMMAS["band_clear_low"] = _lem(  # x & ~(2^k - 1) == x & -(2^k): the low k bits cleared
+    2,
+    lambda x, k: z3.Implies(k >= 0, band(x, -pow2(k)) == (x / pow2(k)) * pow2(k)),
+    lambda x, k: k < 0 or (x & -(2 ** k)) == (x // 2 ** k) * 2 ** k,
+    [_G + [255, 170, 128, 127], _GP],
+)
 LEMMAS["div_nonneg"] = _lem(
     2,
     lambda a, n: z3.Implies(z3.And(a >= 0, n >= 1), a / n >= 0),
@@ -714,7 +720,7 @@ def lift_conc(ctx, v, node=None):
         return mk_bool(o)
     if isinstance(o, int):
         return mk_int(int(o))
-    if o is None:
+    if o is None or any(o is x for x in getattr(ctx.reg, "none_sentinels", [])):
         return NONE
     if isinstance(o, str):
         return SV("str", ctx.strid(o))
